@@ -522,7 +522,10 @@ def _search_case(arg):
         real, js, flags = build(spec, B)
         d0 = c17_pure.dump(real)
         try:
-            found, want = _run_search(root, ids, walk, real)
+            found, want = L.call_with_timeout(30, _run_search, root, ids, walk, real)
+        except L.Timeout as e:
+            out.append({'name': name, 'spec': spec, 'exc': 'does-not-terminate: ' + str(e), 'src': src})
+            return out
         except Exception as e:      # noqa: BLE001
             out.append({'name': name, 'spec': spec, 'exc': type(e).__name__ + ': ' + str(e)[:100], 'src': src})
             continue
